@@ -1,6 +1,473 @@
-//! C12 (stub)
+//! C12 (thin) — NonZero and Odd wrappers can never hold an invalid value.
+//!
+//! Every way of producing a `NonZero<T>` / `Odd<T>` (T in Limb, Uint<N>, Int<N>, BoxedUint) that the
+//! public API offers is called; the produced value is converted to the oracle type and compared with
+//! the oracle's reading of the argument (so the invariant "!= 0" / "odd" is evaluated on each
+//! produced value, and decoders are compared in the *stated* byte order). Constructors must fail
+//! (none / documented panic) exactly on zero / even input.
+
 use super::prelude::*;
+use core::num::{NonZeroU8, NonZeroU16, NonZeroU32, NonZeroU64, NonZeroU128};
+use crypto_bigint::{ArrayEncoding, ByteArray, Encoding, Random};
+use hybrid_array::Array;
+use rand_chacha::ChaCha8Rng;
+use rand_core::{RngCore, SeedableRng};
+
+fn some_nz(v: &BigUint) -> Option<BigUint> {
+    if v.is_zero() { None } else { Some(v.clone()) }
+}
+
+fn some_odd(v: &BigUint) -> Option<BigUint> {
+    if v.bit(0) { Some(v.clone()) } else { None }
+}
+
+fn big(x: &BigUint) -> BigInt {
+    BigInt::from(x.clone())
+}
+
+/// values: the edge corpus (reduced) with 0, 1, 2, MAX, MAX-1 guaranteed by `edges`
+fn values(c: &mut Ctx, l: usize) -> Vec<BigUint> {
+    let mut v = c.scaled(4, |c| c.inputs1(l));
+    v.push(BigUint::zero());
+    v.push(pow2(64 * l as u32 - 1));
+    v.push(pow2(64 * l as u32 - 1) + 1u32);
+    v
+}
+
+// ---------------------------------------------------------------- Uint
+
+fn nz_uint<const L: usize>(c: &mut Ctx) {
+    let vals = values(c, L);
+    let mut prev: Option<NonZero<Uint<L>>> = None;
+    for v in vals {
+        if c.done() {
+            return;
+        }
+        let u = bu::<L>(&v);
+        check!(c, call(|| opt(NonZero::new(u))).map(|r| r.map(|n| ub(n.as_ref()))), some_nz(&v); v);
+        check!(c, call(|| copt(u.to_nz())).map(|r| r.map(|n| ub(n.as_ref()))), some_nz(&v); v);
+        if v.is_zero() {
+            // documented: "Panics if the value is zero"
+            must_panic!(c, call(|| NonZero::<Uint<L>>::new_unwrap(u)); v);
+            continue;
+        }
+        check!(c, call(|| NonZero::<Uint<L>>::new_unwrap(u)).map(|n| ub(n.as_ref())), v.clone(); v);
+        let n = NonZero::new(u).unwrap();
+        check!(c, call(|| ub(&n.get())), v.clone(); v);
+        check!(c, call(|| ub(&*n)), v.clone(); v);
+        // selection between two valid values stays valid (and is one of them)
+        if let Some(p) = prev {
+            let pv = ub(p.as_ref());
+            check!(c, call(|| NonZero::conditional_select(&p, &n, Choice::from(0))).map(|r| ub(r.as_ref())), pv.clone(); pv, v);
+            check!(c, call(|| NonZero::conditional_select(&p, &n, Choice::from(1))).map(|r| ub(r.as_ref())), v.clone(); pv, v);
+        }
+        prev = Some(n);
+    }
+}
+
+fn odd_uint<const L: usize>(c: &mut Ctx) {
+    let vals = values(c, L);
+    let mut prev: Option<Odd<Uint<L>>> = None;
+    for v in vals {
+        if c.done() {
+            return;
+        }
+        let u = bu::<L>(&v);
+        check!(c, call(|| opt(Odd::new(u))).map(|r| r.map(|n| ub(n.as_ref()))), some_odd(&v); v);
+        check!(c, call(|| copt(u.to_odd())).map(|r| r.map(|n| ub(n.as_ref()))), some_odd(&v); v);
+        if !v.bit(0) {
+            continue;
+        }
+        let o = Odd::new(u).unwrap();
+        check!(c, call(|| ub(&o.get())), v.clone(); v);
+        // Odd -> &NonZero reinterpretation
+        check!(c, call(|| ub(o.as_nz_ref().as_ref())), v.clone(); v);
+        check!(c, call(|| ub(AsRef::<NonZero<Uint<L>>>::as_ref(&o).as_ref())), v.clone(); v);
+        // Odd<Uint> -> Odd<BoxedUint>: same value, documented precision of From<&Uint> (the Uint's width)
+        check!(c, call(|| Odd::<BoxedUint>::from(o)).map(|r| (xb(r.as_ref()), r.as_ref().nlimbs())), (v.clone(), L); v);
+        check!(c, call(|| Odd::<BoxedUint>::from(&o)).map(|r| (xb(r.as_ref()), r.as_ref().nlimbs())), (v.clone(), L); v);
+        check!(c, call(|| BoxedUint::from(o)).map(|r| xb(&r)), v.clone(); v);
+        check!(c, call(|| BoxedUint::from(&o)).map(|r| xb(&r)), v.clone(); v);
+        if let Some(p) = prev {
+            let pv = ub(p.as_ref());
+            check!(c, call(|| Odd::conditional_select(&p, &o, Choice::from(0))).map(|r| ub(r.as_ref())), pv.clone(); pv, v);
+            check!(c, call(|| Odd::conditional_select(&p, &o, Choice::from(1))).map(|r| ub(r.as_ref())), v.clone(); pv, v);
+        }
+        prev = Some(o);
+    }
+}
+
+fn uint_from_prims<const L: usize>(c: &mut Ctx) {
+    let mut ws: Vec<u128> = vec![1, 2, 0xff, 0x100, 0xffff, 0x1_0000, u32::MAX as u128, 1 << 32, u64::MAX as u128, 1 << 64, u128::MAX, 1 << 127, 1 << 7, 1 << 15, 1 << 31, 1 << 63];
+    for _ in 0..64 {
+        ws.push((c.word() as u128) << 64 | c.edgy_word() as u128);
+    }
+    for w in ws {
+        if let Some(n) = NonZeroU8::new(w as u8) {
+            let e = BigUint::from(n.get());
+            check!(c, call(|| NonZero::<Uint<L>>::from_u8(n)).map(|r| ub(r.as_ref())), e.clone(); w);
+            check!(c, call(|| NonZero::<Uint<L>>::from(n)).map(|r| ub(r.as_ref())), e; w);
+        }
+        if let Some(n) = NonZeroU16::new(w as u16) {
+            let e = BigUint::from(n.get());
+            check!(c, call(|| NonZero::<Uint<L>>::from_u16(n)).map(|r| ub(r.as_ref())), e.clone(); w);
+            check!(c, call(|| NonZero::<Uint<L>>::from(n)).map(|r| ub(r.as_ref())), e; w);
+        }
+        if let Some(n) = NonZeroU32::new(w as u32) {
+            let e = BigUint::from(n.get());
+            check!(c, call(|| NonZero::<Uint<L>>::from_u32(n)).map(|r| ub(r.as_ref())), e.clone(); w);
+            check!(c, call(|| NonZero::<Uint<L>>::from(n)).map(|r| ub(r.as_ref())), e; w);
+        }
+        if let Some(n) = NonZeroU64::new(w as u64) {
+            let e = BigUint::from(n.get());
+            check!(c, call(|| NonZero::<Uint<L>>::from_u64(n)).map(|r| ub(r.as_ref())), e.clone(); w);
+            check!(c, call(|| NonZero::<Uint<L>>::from(n)).map(|r| ub(r.as_ref())), e; w);
+        }
+        // a u128 needs two limbs (Uint::from_u128 asserts it)
+        if L >= 2 {
+            if let Some(n) = NonZeroU128::new(w) {
+                let e = BigUint::from(n.get());
+                check!(c, call(|| NonZero::<Uint<L>>::from_u128(n)).map(|r| ub(r.as_ref())), e.clone(); w);
+                check!(c, call(|| NonZero::<Uint<L>>::from(n)).map(|r| ub(r.as_ref())), e; w);
+            }
+        }
+    }
+}
+
+fn constants<const L: usize>(c: &mut Ctx) {
+    let l = L;
+    let bits = 64 * L as u32;
+    check!(c, call(|| ub(NonZero::<Uint<L>>::ONE.as_ref())), BigUint::one(); l);
+    check!(c, call(|| ub(NonZero::<Uint<L>>::MAX.as_ref())), mask(bits); l);
+    check!(c, call(|| ub(NonZero::<Uint<L>>::default().as_ref())), BigUint::one(); l);
+    // "The default odd value is one (zero is not odd)"
+    check!(c, call(|| ub(Odd::<Uint<L>>::default().as_ref())), BigUint::one(); l);
+    check!(c, call(|| ib(NonZero::<Int<L>>::ONE.as_ref())), BigInt::one(); l);
+    check!(c, call(|| ib(NonZero::<Int<L>>::MAX.as_ref())), smax(bits); l);
+    check!(c, call(|| ib(NonZero::<Int<L>>::default().as_ref())), BigInt::one(); l);
+    check!(c, call(|| NonZero::<Uint<L>>::BITS), bits; l);
+    check!(c, call(|| NonZero::<Uint<L>>::BYTES), 8 * L; l);
+}
+
+// ---------------------------------------------------------------- Int
+
+fn nz_odd_int<const L: usize>(c: &mut Ctx) {
+    let bits = 64 * L as u32;
+    let vals = values(c, L);
+    let mut prev: Option<NonZero<Int<L>>> = None;
+    for p in vals {
+        if c.done() {
+            return;
+        }
+        // p: bit pattern, a: two's complement value
+        let a = wrap_signed(&big(&p), bits);
+        let x = bi::<L>(&a);
+        let nz = if a.is_zero() { None } else { Some(a.clone()) };
+        let odd = if p.bit(0) { Some(a.clone()) } else { None };
+        check!(c, call(|| opt(NonZero::new(x))).map(|r| r.map(|n| ib(n.as_ref()))), nz.clone(); a);
+        check!(c, call(|| copt(x.to_nz())).map(|r| r.map(|n| ib(n.as_ref()))), nz; a);
+        check!(c, call(|| copt(x.to_odd())).map(|r| r.map(|n| ib(n.as_ref()))), odd.clone(); a);
+        if odd.is_some() {
+            let o = copt(x.to_odd()).unwrap();
+            check!(c, call(|| ib(o.as_nz_ref().as_ref())), a.clone(); a);
+        }
+        if a.is_zero() {
+            continue;
+        }
+        let n = NonZero::new(x).unwrap();
+        // magnitude of a non-zero Int is a non-zero Uint (also for MIN)
+        check!(c, call(|| n.abs_sign()).map(|(m, s)| (ub(m.as_ref()), ccb(s))), (a.magnitude().clone(), a < BigInt::zero()); a);
+        if let Some(q) = prev {
+            let qv = ib(q.as_ref());
+            check!(c, call(|| NonZero::conditional_select(&q, &n, Choice::from(0))).map(|r| ib(r.as_ref())), qv.clone(); qv, a);
+            check!(c, call(|| NonZero::conditional_select(&q, &n, Choice::from(1))).map(|r| ib(r.as_ref())), a.clone(); qv, a);
+        }
+        prev = Some(n);
+    }
+}
+
+// ---------------------------------------------------------------- Limb
+
+fn limb(c: &mut Ctx) {
+    let mut prev: Option<NonZero<Limb>> = None;
+    for v in c.inputs1(1) {
+        if c.done() {
+            return;
+        }
+        let l = bl(&v);
+        check!(c, call(|| opt(NonZero::new(l))).map(|r| r.map(|n| lb(*n.as_ref()))), some_nz(&v); v);
+        check!(c, call(|| copt(l.to_nz())).map(|r| r.map(|n| lb(*n.as_ref()))), some_nz(&v); v);
+        let w = l.0;
+        if let Some(n) = NonZeroU8::new(w as u8) {
+            check!(c, call(|| NonZero::<Limb>::from_u8(n)).map(|r| lb(r.get())), BigUint::from(n.get()); v);
+            check!(c, call(|| NonZero::<Limb>::from(n)).map(|r| lb(r.get())), BigUint::from(n.get()); v);
+        }
+        if let Some(n) = NonZeroU16::new(w as u16) {
+            check!(c, call(|| NonZero::<Limb>::from_u16(n)).map(|r| lb(r.get())), BigUint::from(n.get()); v);
+            check!(c, call(|| NonZero::<Limb>::from(n)).map(|r| lb(r.get())), BigUint::from(n.get()); v);
+        }
+        if let Some(n) = NonZeroU32::new(w as u32) {
+            check!(c, call(|| NonZero::<Limb>::from_u32(n)).map(|r| lb(r.get())), BigUint::from(n.get()); v);
+            check!(c, call(|| NonZero::<Limb>::from(n)).map(|r| lb(r.get())), BigUint::from(n.get()); v);
+        }
+        if let Some(n) = NonZeroU64::new(w) {
+            check!(c, call(|| NonZero::<Limb>::from_u64(n)).map(|r| lb(r.get())), BigUint::from(n.get()); v);
+            check!(c, call(|| NonZero::<Limb>::from(n)).map(|r| lb(r.get())), BigUint::from(n.get()); v);
+        }
+        // byte decoders in the stated order
+        let bytes = w.to_le_bytes().to_vec();
+        let arr = w.to_le_bytes();
+        check!(c, call(|| opt(NonZero::<Limb>::from_le_bytes(arr))).map(|r| r.map(|n| lb(n.get()))), some_nz(&BigUint::from_bytes_le(&bytes)); bytes);
+        check!(c, call(|| opt(NonZero::<Limb>::from_be_bytes(arr))).map(|r| r.map(|n| lb(n.get()))), some_nz(&BigUint::from_bytes_be(&bytes)); bytes);
+        if v.is_zero() {
+            must_panic!(c, call(|| NonZero::<Limb>::new_unwrap(l)); v);
+            continue;
+        }
+        check!(c, call(|| NonZero::<Limb>::new_unwrap(l)).map(|n| lb(n.get())), v.clone(); v);
+        let n = NonZero::new(l).unwrap();
+        if let Some(p) = prev {
+            let pv = lb(p.get());
+            check!(c, call(|| NonZero::conditional_select(&p, &n, Choice::from(0))).map(|r| lb(r.get())), pv.clone(); pv, v);
+            check!(c, call(|| NonZero::conditional_select(&p, &n, Choice::from(1))).map(|r| lb(r.get())), v.clone(); pv, v);
+        }
+        prev = Some(n);
+    }
+    let l = 1usize;
+    check!(c, call(|| lb(NonZero::<Limb>::ONE.get())), BigUint::one(); l);
+    check!(c, call(|| lb(NonZero::<Limb>::MAX.get())), mask(64); l);
+    check!(c, call(|| lb(NonZero::<Limb>::default().get())), BigUint::one(); l);
+}
+
+// ---------------------------------------------------------------- BoxedUint
+
+fn boxed(c: &mut Ctx) {
+    for limbs in 1..=4usize {
+        for v in c.scaled(4, |c| values(c, limbs)) {
+            if c.done() {
+                return;
+            }
+            let x = bx(&v, limbs);
+            let shape_nz = |r: Option<NonZero<BoxedUint>>| r.map(|n| (xb(n.as_ref()), n.as_ref().nlimbs()));
+            let shape_odd = |r: Option<Odd<BoxedUint>>| r.map(|n| (xb(n.as_ref()), n.as_ref().nlimbs()));
+            check!(c, call(|| opt(NonZero::new(x.clone()))).map(shape_nz), some_nz(&v).map(|v| (v, limbs)); v, limbs);
+            check!(c, call(|| opt(Odd::new(x.clone()))).map(shape_odd), some_odd(&v).map(|v| (v, limbs)); v, limbs);
+            check!(c, call(|| opt(x.to_odd())).map(shape_odd), some_odd(&v).map(|v| (v, limbs)); v, limbs);
+            if v.bit(0) {
+                let o = Odd::new(x.clone()).unwrap();
+                check!(c, call(|| xb(o.as_nz_ref().as_ref())), v.clone(); v, limbs);
+                check!(c, call(|| xb(&o.clone().get())), v.clone(); v, limbs);
+            }
+        }
+    }
+}
+
+// ---------------------------------------------------------------- byte / array / hex decoders
+
+/// Byte strings of length n: all zero, one-hot at either end, even/odd at either end, 0xff.., the
+/// edge corpus, random.
+fn byte_inputs(c: &mut Ctx, n: usize) -> Vec<Vec<u8>> {
+    let mut v: Vec<Vec<u8>> = Vec::new();
+    v.push(vec![0; n]);
+    v.push(vec![0xff; n]);
+    for (first, last) in [(1u8, 0u8), (0, 1), (2, 0), (0, 2), (1, 2), (2, 1), (0x80, 0), (0, 0x80), (1, 1), (2, 2), (0xff, 0xfe), (0xfe, 0xff)] {
+        let mut b = vec![0u8; n];
+        b[0] = first;
+        b[n - 1] |= last;
+        if n == 1 {
+            b[0] = first | last;
+        }
+        v.push(b.clone());
+        // the same with garbage in the middle
+        for x in b.iter_mut().take(n - 1).skip(1) {
+            *x = c.word() as u8;
+        }
+        v.push(b);
+    }
+    // a single non-zero byte at each position
+    for i in 0..n {
+        let mut b = vec![0u8; n];
+        b[i] = if i % 2 == 0 { 1 } else { 0x10 };
+        v.push(b);
+    }
+    for x in c.scaled(16, |c| c.inputs1(n / 8)) {
+        let mut b = x.to_bytes_le();
+        b.resize(n, 0);
+        v.push(b);
+    }
+    v
+}
+
+fn uint_bytes<const L: usize>(c: &mut Ctx)
+where
+    Uint<L>: ArrayEncoding,
+{
+    for bytes in byte_inputs(c, 8 * L) {
+        if c.done() {
+            return;
+        }
+        let (be, le) = (BigUint::from_bytes_be(&bytes), BigUint::from_bytes_le(&bytes));
+        let repr = <Uint<L> as Encoding>::Repr::try_from(&bytes[..]).expect("repr length");
+        let val = |r: Option<NonZero<Uint<L>>>| r.map(|n| ub(n.as_ref()));
+        check!(c, call(|| opt(NonZero::<Uint<L>>::from_be_bytes(repr))).map(val), some_nz(&be); bytes);
+        check!(c, call(|| opt(NonZero::<Uint<L>>::from_le_bytes(repr))).map(val), some_nz(&le); bytes);
+        let arr: ByteArray<Uint<L>> = Array::from_fn(|i| bytes[i]);
+        check!(c, call(|| opt(NonZero::<Uint<L>>::from_be_byte_array(arr.clone()))).map(val), some_nz(&be); bytes);
+        check!(c, call(|| opt(NonZero::<Uint<L>>::from_le_byte_array(arr.clone()))).map(val), some_nz(&le); bytes);
+    }
+}
+
+fn odd_hex<const L: usize>(c: &mut Ctx) {
+    for bytes in byte_inputs(c, 8 * L) {
+        if c.done() {
+            return;
+        }
+        let (be, le) = (BigUint::from_bytes_be(&bytes), BigUint::from_bytes_le(&bytes));
+        let lower: String = bytes.iter().map(|b| format!("{:02x}", b)).collect();
+        let upper = lower.to_uppercase();
+        for hex in [lower, upper] {
+            // documented: panics if the value is even
+            if be.bit(0) {
+                check!(c, call(|| Odd::<Uint<L>>::from_be_hex(&hex)).map(|o| ub(o.as_ref())), be.clone(); hex);
+            } else {
+                must_panic!(c, call(|| Odd::<Uint<L>>::from_be_hex(&hex)); hex);
+            }
+            if le.bit(0) {
+                check!(c, call(|| Odd::<Uint<L>>::from_le_hex(&hex)).map(|o| ub(o.as_ref())), le.clone(); hex);
+            } else {
+                must_panic!(c, call(|| Odd::<Uint<L>>::from_le_hex(&hex)); hex);
+            }
+        }
+    }
+    // documented: panics if the hex is malformed or not zero-padded for the size
+    let good = format!("{}01", "00".repeat(8 * L - 1));
+    for hex in [good[2..].to_string(), format!("{}00", good), good.replace("01", "0g"), good.replace("01", " 1"), String::new()] {
+        must_panic!(c, call(|| Odd::<Uint<L>>::from_be_hex(&hex)); hex);
+        must_panic!(c, call(|| Odd::<Uint<L>>::from_le_hex(&hex)); hex);
+    }
+}
+
+// ---------------------------------------------------------------- random generation
+
+/// RNG stub: `zeros` all-zero words first, then the same non-zero `fill` word `reps` times (e.g.
+/// an even word), then a counter. Never an endless stream of identical words.
+#[derive(Clone)]
+struct StubRng {
+    zeros: usize,
+    fill: u64,
+    reps: usize,
+    ctr: u64,
+}
+
+impl StubRng {
+    fn word(&mut self) -> u64 {
+        if self.zeros > 0 {
+            self.zeros -= 1;
+            0
+        } else if self.reps > 0 {
+            self.reps -= 1;
+            self.fill
+        } else {
+            self.ctr = self.ctr.wrapping_add(1);
+            self.ctr
+        }
+    }
+}
+
+impl RngCore for StubRng {
+    fn next_u32(&mut self) -> u32 {
+        self.word() as u32
+    }
+    fn next_u64(&mut self) -> u64 {
+        self.word()
+    }
+    fn fill_bytes(&mut self, dst: &mut [u8]) {
+        for chunk in dst.chunks_mut(8) {
+            let w = self.word().to_le_bytes();
+            chunk.copy_from_slice(&w[..chunk.len()]);
+        }
+    }
+}
+
+fn stubs(l: usize) -> Vec<StubRng> {
+    let mut v = Vec::new();
+    for zeros in [0, 1, l.saturating_sub(1), l, l + 1, 2 * l, 3 * l + 1, 17 * l] {
+        for (fill, reps) in [(0u64, 0usize), (2, l), (2, 4 * l), (1 << 63, 2 * l), (u64::MAX - 1, l)] {
+            for ctr in [0u64, 1, u64::MAX - 1] {
+                v.push(StubRng { zeros, fill, reps, ctr });
+            }
+        }
+    }
+    v
+}
+
+fn random_fixed<const L: usize>(c: &mut Ctx) {
+    for (i, stub) in stubs(L).into_iter().enumerate() {
+        if c.done() {
+            return;
+        }
+        let mut r = stub.clone();
+        check!(c, call(|| NonZero::<Uint<L>>::random(&mut r)).map(|n| !ub(n.as_ref()).is_zero()), true; i);
+        let mut r = stub.clone();
+        check!(c, call(|| NonZero::<Uint<L>>::try_random(&mut r)).map(|n| n.map(|n| !ub(n.as_ref()).is_zero()).unwrap_or(false)), true; i);
+        let mut r = stub.clone();
+        check!(c, call(|| NonZero::<Int<L>>::random(&mut r)).map(|n| !ib(n.as_ref()).is_zero()), true; i);
+        let mut r = stub.clone();
+        check!(c, call(|| Odd::<Uint<L>>::random(&mut r)).map(|n| ub(n.as_ref()).bit(0)), true; i);
+        let mut r = stub.clone();
+        check!(c, call(|| Odd::<Uint<L>>::try_random(&mut r)).map(|n| n.map(|n| ub(n.as_ref()).bit(0)).unwrap_or(false)), true; i);
+        if L == 1 {
+            let mut r = stub.clone();
+            check!(c, call(|| NonZero::<Limb>::random(&mut r)).map(|n| n.get().0 != 0), true; i);
+        }
+    }
+    for _ in 0..(c.iters / 4).max(32) {
+        if c.done() {
+            return;
+        }
+        let seed = c.word();
+        let mut r = ChaCha8Rng::seed_from_u64(seed);
+        check!(c, call(|| NonZero::<Uint<L>>::random(&mut r)).map(|n| !ub(n.as_ref()).is_zero()), true; seed);
+        check!(c, call(|| NonZero::<Int<L>>::random(&mut r)).map(|n| !ib(n.as_ref()).is_zero()), true; seed);
+        check!(c, call(|| Odd::<Uint<L>>::random(&mut r)).map(|n| ub(n.as_ref()).bit(0)), true; seed);
+        check!(c, call(|| NonZero::<Limb>::random(&mut r)).map(|n| n.get().0 != 0), true; seed);
+    }
+}
+
+fn random_boxed(c: &mut Ctx) {
+    // bit_length 0 admits no odd value (nothing below 2^0 is odd): skipped
+    let mut lens: Vec<u32> = (1..=130).collect();
+    lens.extend([191, 192, 193, 255, 256, 257, 1023, 1024, 1025]);
+    for bit_length in lens {
+        if c.done() {
+            return;
+        }
+        let l = bit_length.div_ceil(64) as usize;
+        for (i, stub) in stubs(l).into_iter().step_by(7).take(8).enumerate() {
+            let mut r = stub;
+            let got = call(|| Odd::<BoxedUint>::random(&mut r, bit_length)).map(|o| (xb(o.as_ref()).bit(0), xb(o.as_ref()) < pow2(bit_length), o.as_ref().bits_precision()));
+            check!(c, got, (true, true, 64 * l as u32); bit_length, i);
+        }
+        for _ in 0..4 {
+            let seed = c.word();
+            let mut r = ChaCha8Rng::seed_from_u64(seed);
+            let got = call(|| Odd::<BoxedUint>::random(&mut r, bit_length)).map(|o| (xb(o.as_ref()).bit(0), xb(o.as_ref()) < pow2(bit_length), o.as_ref().bits_precision()));
+            check!(c, got, (true, true, 64 * l as u32); bit_length, seed);
+        }
+    }
+}
 
 pub fn cases() -> Vec<Case> {
-    Vec::new()
+    let mut v = Vec::new();
+    ucases!(v, "NonZero::new/to_nz/new_unwrap/get/deref/conditional_select", nz_uint; 1, 2, 3, 4, 16);
+    ucases!(v, "Odd::new/to_odd/as_nz_ref/AsRef<NonZero>/conditional_select/Odd<BoxedUint>::from", odd_uint; 1, 2, 3, 4, 16);
+    ucases!(v, "NonZero::from_u8..from_u128/From<NonZeroU*>", uint_from_prims; 1, 2, 4, 16);
+    ucases!(v, "NonZero/Odd constants and Default (Uint, Int)", constants; 1, 2, 3, 4, 16);
+    icases!(v, "NonZero::new/to_nz/to_odd/abs_sign/conditional_select", nz_odd_int; 1, 2, 3, 4, 16);
+    case!(v, "Limb: NonZero::new/to_nz/new_unwrap/from_u8..from_u64/From/from_be_bytes/from_le_bytes/ONE/MAX/Default", limb);
+    case!(v, "BoxedUint: NonZero::new/Odd::new/to_odd/as_nz_ref", boxed);
+    ucases!(v, "NonZero::from_be_bytes/from_le_bytes/from_be_byte_array/from_le_byte_array", uint_bytes; 1, 2, 3, 4, 16);
+    ucases!(v, "Odd::from_be_hex/from_le_hex", odd_hex; 1, 2, 3, 4, 16);
+    ucases!(v, "NonZero/Odd random (Uint, Int, Limb; ChaCha and zero-prefixed streams)", random_fixed; 1, 2, 4, 16);
+    case!(v, "Odd<BoxedUint>::random", random_boxed);
+    v
 }
